@@ -51,7 +51,7 @@ func VerifC06UploadCrash() {
 	// the interrupted upload
 	const maxCalls = 9
 	cr := &vCrasher{stores: []*vStore{meta, vmeta, blob}}
-	cr.crashAt = vChoose("crashAt", maxCalls+1)
+	cr.crashAt = vInt("crashAt", 0, maxCalls) // symbolic crash point: the store model decides at each mutating call whether it is the one
 	if cr.crashAt > 0 {
 		switch vChoose("how", 3) {
 		case 1:
@@ -183,7 +183,7 @@ func VerifC06CommitCrash() {
 	beforeLabel := string(w.vmeta.data[model.GetArchivePathToLabel("r", "v1")])
 
 	cr := &vCrasher{stores: []*vStore{w.meta, w.vmeta, w.blob}}
-	cr.crashAt = vChoose("crashAt", 4) + 1
+	cr.crashAt = vInt("crashAt", 1, 4)
 	switch vChoose("how", 3) {
 	case 1:
 		cr.landed = true
